@@ -119,12 +119,22 @@ def gen_plan(j, rng):
         if r < 0.4:
             op = {"op": "apply", "c": c, "set": client_sets(rng, full=rng.random() < 0.3)}
             op["net"] = [gen_net(rng, version)]
+            if rng.random() < 0.25:
+                # a property-protocol setting changed together with state: apply() makes two exchanges
+                op["props"] = {rng.choice(["horizontal_swing_angle", "vertical_swing_angle"]): rng.choice([0, 1, 25, 50, 75, 100])}
+                op["net"] = [gen_net(rng, version, inner=True), gen_net(rng, version)]
         elif r < 0.75:
             op = {"op": "refresh", "c": c, "net": [gen_net(rng, version)]}
         elif r < 0.85:
             op = {"op": "toggle", "c": c, "net": [gen_net(rng, version, inner=True), gen_net(rng, version)]}
-        elif r < 0.95:
+        elif r < 0.93:
             op = {"op": "dev_change", "set": to_dev_state(rand_state(rng))}
+        elif r < 0.96 and version == 3:
+            # a half-sent unsolicited report, optionally across an authentication expiry, then the next exchange
+            ops.append({"op": "dev_partial", "k": rng.choice([1, 2, 5, 6, 7, 8, 50, 100, 149])})
+            if rng.random() < 0.5:
+                ops.append({"op": "jump", "s": 12 * 3600 + rng.choice([61, 600])})
+            op = {"op": "refresh", "c": 0}
         else:
             if cfg["clients"] == 2:
                 op = {"op": "refresh2", "net": [gen_net(rng, version), gen_net(rng, version)]}
@@ -243,8 +253,10 @@ def run(plan):
             if kind == "apply":
                 for attr, val in op.get("set", {}).items():
                     s.set_attr(ac, attr, val)
+                for attr, val in op.get("props", {}).items():
+                    s.set_attr(ac, attr, val)
                 want = requested_device_state(ac)
-                o = await s.do({k: v for k, v in op.items() if k != "set"})
+                o = await s.do({k: v for k, v in op.items() if k not in ("set", "props")})
                 did["apply"] += 1
                 if o.kind != "ok":
                     fail(f"apply raised {o.exc_type}", repr(o.exc))
@@ -257,6 +269,8 @@ def run(plan):
                 if bad:
                     fail(f"apply: client view differs from echoed device state in {bad[0][0]}", repr(bad))
                     return
+                # (property-protocol settings are C16's subject; here they only make apply() a two-exchange
+                #  operation - a duplicated property acknowledgement may legitimately overwrite a pending one)
             elif kind == "refresh":
                 o = await s.do(op)
                 did["refresh"] += 1
